@@ -94,6 +94,23 @@ GUARDS = [
         'p->copy_details(*null_post); p->set_flags(null_post->flags() | ITEM_GENERATED | POST_CALCULATED);']),
     (['C01', 'C02', 'C09'], 'must_balance', 'src/post.h', r'bool\s+must_balance\s*\(\s*\)\s*const\s*\{', [
         'return ! has_flags(POST_VIRTUAL) || has_flags(POST_MUST_BALANCE);']),
+    (['C01', 'C02'], 'posting_line_split', 'src/utils.h', r'inline\s+char\s*\*\s*next_element\s*\(', [
+        "if (! (*p == ' ' || *p == '\\t')) continue;",
+        "if (! variable) { *p = '\\0'; return skip_ws(p + 1); }",
+        "else if (*p == '\\t') { *p = '\\0'; return skip_ws(p + 1); }",
+        "else if (*(p + 1) == ' ') { *p = '\\0'; return skip_ws(p + 2); }",
+        'return NULL;']),
+    (['C01', 'C02'], 'posting_line_skip_ws', 'src/utils.h', r'inline\s+char\s*\*\s*skip_ws\s*\(', [
+        "while (*ptr == ' ' || *ptr == '\\t' || *ptr == '\\n') ptr++;"]),
+    (['C01', 'C02'], 'posting_line_account', 'src/textual.cc', r'post_t\s*\*\s*instance_t::parse_post\s*\(', [
+        'char * next = next_element(p, true);',
+        'char * e = p + std::strlen(p);',
+        'while (e > p && std::isspace(static_cast<unsigned char>(*(e - 1)))) e--;',
+        "if ((*p == '[' && *(e - 1) == ']') || (*p == '(' && *(e - 1) == ')')) {",
+        "if (*p == '[') {", 'post->add_flags(POST_MUST_BALANCE);',
+        'p++; e--;',
+        'string name(p, static_cast<string::size_type>(e - p));',
+        "if (next && *next && (*next != ';' && *next != '=')) {"]),
     (['C01'], 'virtual_cost_adds_flag', 'src/textual.cc', r'post_t\s*\*\s*instance_t::parse_post\s*\(', [
         'post->add_flags(POST_COST_VIRTUAL);']),
     (['C03', 'C08'], 'amount_add_precision', 'src/amount.cc', r'amount_t&\s*amount_t::operator\+=\s*\(\s*const\s+amount_t&\s*amt\s*\)\s*\{', [
@@ -121,7 +138,18 @@ GUARDS = [
     (['C04', 'C08'], 'parse_teaches_style_and_precision', 'src/amount.cc', r'bool\s+amount_t::parse\s*\(\s*std::istream&\s*in', [
         'else if (commodity_ && ! no_migrate_style) { commodity().add_flags(comm_flags); if (new_quantity->prec > commodity().precision()) commodity().set_precision(new_quantity->prec); }']),
     (['C04'], 'needs_quotes_uses_table', 'src/commodity.cc', r'bool\s+commodity_t::symbol_needs_quotes\s*\(', [
-        'invalid_chars[static_cast<unsigned char>(ch)]']),
+        'foreach (char ch, symbol) if (invalid_chars[static_cast<unsigned char>(ch)]) return true;',
+        'return is_reserved_token(symbol.c_str());']),
+    (['C04'], 'reserved_words_compared_whole', 'src/commodity.cc', r'bool\s+is_reserved_token\s*\(', [
+        'switch (buf[0]) {',
+        'return std::strcmp(buf, "and") == 0;', 'return std::strcmp(buf, "div") == 0;',
+        'return std::strcmp(buf, "else") == 0;', 'return std::strcmp(buf, "false") == 0;',
+        'return std::strcmp(buf, "if") == 0;', 'return std::strcmp(buf, "or") == 0;',
+        'return std::strcmp(buf, "not") == 0;', 'return std::strcmp(buf, "true") == 0;',
+        'return false;']),
+    (['C04'], 'bare_symbol_scan', 'src/commodity.cc', r'void\s+commodity_t::parse_symbol\s*\(\s*std::istream', [
+        'while (_p - buf < 255 && in.good() && ! in.eof() && ! invalid_chars[c]) {',
+        'if (is_reserved_token(buf)) buf[0] = \'\\0\';']),
     (['C04'], 'column_quote_elision', 'src/commodity.cc', r'void\s+commodity_t::print\s*\(', [
         'if (elide_quotes && has_flags(COMMODITY_STYLE_SEPARATED) && ! sym.empty() && sym[0] == \'"\' && ! std::strchr(sym.c_str(), \' \')) {',
         'if (! all(subsym, is_digit())) out << subsym; else out << sym;']),
